@@ -10,7 +10,7 @@ CONSTANTS KeyOrd <- KeyAB
           InitCfgs <- OneInit
           WriteCfgs <- TwoBadWrite
           MaxBegin = 2
-          MaxRead = 2
+          MaxRead = 1
           MaxSpawn = 2
           MaxCrash = 1
 INIT Init
